@@ -31,7 +31,7 @@ RULE = ('family = one dataset src.map(u0).map(fresh).cache(keep_mem_free=K) (fre
         'call counter per index, memory state. Non-trivial = at least one access hit '
         'an already frozen example or the memory fault fired; distinct = distinct '
         '(dataset, history).')
-PROBES = ['memory_dropped_while_the_example_was_loaded', 'eager_cache_of_a_raw_container_dataset', 'concurrent_access_by_key', 'eager_cache_of_duplicate_keys_without_length', 'two_clients_same_index_at_once', 'held_iterator_met_entry_cached_meanwhile', 'second_cache_created_after_first_crossed',
+PROBES = ['out_of_range_index_refused', 'miss_after_memory_recovered_not_cached', 'memory_dropped_while_the_example_was_loaded', 'eager_cache_of_a_raw_container_dataset', 'concurrent_access_by_key', 'eager_cache_of_duplicate_keys_without_length', 'two_clients_same_index_at_once', 'held_iterator_met_entry_cached_meanwhile', 'second_cache_created_after_first_crossed',
           'cache_hit_after_threshold', 'cache_miss_after_threshold',
           'negative_index_hits_positive_entry', 'key_hits_index_entry',
           'copy_shares_cache', 'prefetch_worker_filled_cache',
@@ -111,14 +111,17 @@ class FreshLogFn(W.FreshFn):
 
 def gen_ops(rng, n, dict_source, k, flap):
     ops = []
-    kinds = ['get', 'get', 'get', 'getneg', 'npget', 'slice_iter', 'iter', 'iter_k',
+    kinds = ['get', 'get', 'get', 'getneg', 'npget', 'get_oob', 'slice_iter', 'iter', 'iter_k',
              'copy_get', 'copy_iter', 'fcopy_get', 'prefetch1', 'prefetchw',
              'mutate', 'mutate', 'it_open', 'it_next', 'it_next', 'it_next', 'concurrent_get']
     if dict_source:
         kinds += ['key', 'key', 'items_iter']
     for _ in range(k):
         op = rng.choice(kinds)
-        if op in ('get', 'getneg', 'npget', 'key', 'copy_get', 'fcopy_get'):
+        if op == 'get_oob':
+            # an index outside the dataset, on either side: IndexError, nothing computed
+            ops.append([op, rng.choice([n, n + 1, -n - 1, -2 * n, -n - 2, 2 * n + 1])])
+        elif op in ('get', 'getneg', 'npget', 'key', 'copy_get', 'fcopy_get'):
             ops.append([op, rng.randrange(n)])
         elif op == 'concurrent_get':
             ops.append([op, [rng.randrange(n), rng.randrange(1 << 20)]])
@@ -310,8 +313,17 @@ class Model:
             return
         if self.low:
             self.probes['cache_miss_after_threshold'] = 1
+        direct = via in ('index', 'negative_index', 'numpy_integer_index', 'key')
+        if self.low and direct and not uncertain:
+            # this very dataset object has seen the threshold crossed (it polls
+            # the memory on a miss): it caches nothing from now on, whatever the
+            # memory does later.  (Copies and prefetch workers poll on their own.)
+            self.latched = True
         if uncertain or (self.was_low and not self.low):
-            self.maybe[i] = v           # flapping / mid-iteration flip: either is fine
+            if getattr(self, 'latched', False) and direct and not uncertain:
+                self.probes['miss_after_memory_recovered_not_cached'] = 1
+            else:
+                self.maybe[i] = v       # flapping / mid-iteration flip: either is fine
         elif not self.low:
             self.frozen[i] = v
 
@@ -478,6 +490,23 @@ def _run_lazy(case, ds, ctx, m):
             fired['mem_recovered'] += 1
         elif op == 'get':
             acc(arg, lambda: ds[arg], 'index')
+        elif op == 'get_oob':
+            m.absorb(ctx.log)
+            calls_before = sum(m.ncalls.values())
+            try:
+                v_ = ds[arg]
+                m.bad('out_of_range_index_answered', 'out_of_range_index_answered',
+                      'ds[%d] on a cache over %d examples returned %s instead of raising IndexError'
+                      % (arg, n, W.short(W.norm(v_), 60)))
+            except IndexError:
+                m.probes['out_of_range_index_refused'] = 1
+            except Exception as e_:
+                m.bad('out_of_range_index_answered', 'out_of_range_index_wrong_error:%s' % type(e_).__name__,
+                      'ds[%d] on a cache over %d examples raised %r instead of IndexError' % (arg, n, e_))
+            m.absorb(ctx.log)
+            if sum(m.ncalls.values()) != calls_before and not m.violations:
+                m.bad('wrong_number_of_computations', 'wrong_number_of_computations:out_of_range',
+                      'ds[%d] (out of range) ran the upstream pipeline' % arg)
         elif op == 'getneg':
             if arg in m.frozen:
                 m.probes['negative_index_hits_positive_entry'] = 1
